@@ -383,7 +383,7 @@ VARIANTS = [
     V( 'tnet-stream-int-logged-first', TNET, "elif tntype == b'#'[0]:\n data[ours] = int( src )", "elif tntype == b'#'[0]:\n                log.info( 'int' )\n                data[ours]	= int( src )", silent=[ 'T-TNET' ] ),
     V( 'allowed-text-admits-other', LOGIX, "STRUCT.tag_type: (),", "STRUCT.tag_type:	(),\n                    STRING.tag_type:	(STRING.tag_type, SINT.tag_type),", fires=[ 'T-ALLOWED' ], why='seed C05-13' ),
     V( 'allowed-text-admits-itself', LOGIX, "STRUCT.tag_type: (),", "STRUCT.tag_type:	(),\n                    STRING.tag_type:	(STRING.tag_type,),", silent=[ 'T-ALLOWED' ] ),
-    V( 'client-next-break-when-starved', CLIENT, "# non-transition from a sub-machine, just loop if input is still available.\n return None", "# non-transition from a sub-machine, just loop if input is still available.\n                    break", fires=[ 'P-ACT' ], why='seed C02-13' ),
+    V( 'client-next-break-when-starved', CLIENT, "\"Incomplete UDP response from %r\" % ( addr, )\n return None", "\"Incomplete UDP response from %r\" % ( addr, )\n                    break", fires=[ 'P-ACT' ], why='seed C02-13' ),
     V( 'snapshot-vector-storage-rebound', DEVICE, "else:\n self.value[key] = value\n return", "else:\n                updated		= list( self.value )\n                updated[key]	= value\n                self.default	= updated\n            return", fires=[ 'R-SNAPSHOT' ], why='seed C09-14' ),
     V( 'tagloop-same-address-by-text', MAIN, "if device.resolve( te['path'], attribute=True ) == (cls,ins,att):", "if te['path'] == path:", fires=[ 'T-TAGLOOP' ], why='seed C09-15' ),
     V( 'tagloop-same-address-mirrored', MAIN, "if device.resolve( te['path'], attribute=True ) == (cls,ins,att):", "if (cls,ins,att) == device.resolve( te['path'], attribute=True ):", silent=[ 'T-TAGLOOP' ] ),
@@ -457,6 +457,10 @@ VARIANTS = [
     V( 'atomic-level-created-first', DOT, "target = dotdict()\n target[rest] = value\n super( dotdict_base, self ).__setitem__( mine, target )\n return", "target          = super( dotdict_base, self ).setdefault( mine, dotdict() )", fires=[ 'D-ATOMIC' ], why='defect BM (level left behind) reverted' ),
     V( 'atomic-del-through-leaf', DOT, "if not isinstance( target, dotdict_base ):\n # A path leading through something that is not a level names nothing (as for lookup)\n raise KeyError( 'cannot del \"%s\" in \"%s\" (%r)' % ( rest, mine, target ))", "pass", fires=[ 'D-ATOMIC' ], why='defect BM (del) reverted' ),
     V( 'lone-error-reply-direct', DEVICE, "try:\n target.request( req, addr=addr )\n except Exception as exc:\n req.pop( Message_Router.SV_COD_CTX, None )\n req.pop( 'status_ext', None )\n req.service = req.get( 'service', 0 ) | 0x80\n if not req.get( 'status' ):\n req.status = 0x08 # Service not supported\n req.input = bytearray( Object.produce( req ))", "req.service	= req.get( 'service', 0 ) | 0x80\n            req.status		= 0x08\n            req.input		= bytearray( Object.produce( req ))", silent=[ 'S-LONE', 'P-REPLYBIT' ], why='the earlier, simpler form of the repair: still answers' ),
+    V( 'reply-size-unbounded', UCMM, "if len( data.get( 'enip.input', b'' )) > 0xFFFF:", "if False:", fires=[ 'E-REPLY' ], why='defect BN reverted' ),
+    V( 'default-struct-handle-truthiness', PARSER, "if structure_tag is not False: # any structure_tag (handle) value, including 0", "if structure_tag:", fires=[ 'L-DEFAULT' ], why='defect BO reverted' ),
+    V( 'act-udp-waits-for-more', CLIENT, "assert not self.udp, \\\n \"Incomplete UDP response from %r\" % ( addr, )\n return None", "return None", fires=[ 'P-ACT' ], why='defect BP reverted' ),
+    V( 'act-udp-refusal-as-raise', CLIENT, "assert not self.udp, \\\n \"Incomplete UDP response from %r\" % ( addr, )\n return None", "if self.udp:\n                        raise AssertionError( 'Incomplete UDP response' )\n                    return None", silent=[ 'P-ACT' ] ),
 ]
 
 
